@@ -651,8 +651,8 @@ def run(ctx):
     from harness.common.lean import LeanBatch, BrokenCheck
 
     rng = ctx.rng
-    nA, nB, nC = ctx.budget(128, 1400), ctx.budget(96, 1000), ctx.budget(128, 1400)
-    jA, jB, jC = ctx.budget(12, 80), ctx.budget(8, 48), ctx.budget(8, 64)
+    nA, nB, nC = ctx.budget(128, 1200), ctx.budget(96, 900), ctx.budget(128, 1200)
+    jA, jB, jC = ctx.budget(12, 64), ctx.budget(8, 40), ctx.budget(8, 48)
     cases = []
     classes = sorted(CLASSES)
     for k in range(nA):
